@@ -11,7 +11,7 @@ BUDGET = {"quick": 45, "thorough": 600}
 QUICK_CASES = 2200  # generator items in the quick tier (fixed amount of work; BUDGET is then only a safety cap)
 FLOOR = {"quick": 700, "thorough": 700}  # conclusive cases below which a run is inconclusive (the thorough tier is time-budgeted: same floor)
 TIMEOUT = 120
-REQUIRED_OBS = ["file_sets", "selection_checks", "permutations_checked", "install_runs", "install_decisions_checked", "installs_requested", "foreign_packages_seen", "second_runs_checked", "disallowed_runs", "reload_path_runs"]
+REQUIRED_OBS = ["file_sets", "selection_checks", "permutations_checked", "install_runs", "install_decisions_checked", "installs_requested", "foreign_packages_seen", "second_runs_checked", "disallowed_runs", "reload_path_runs", "failed_install_runs"]
 RULE = (
     "real temp trees with requirements.txt at the four documented locations (pyscript/, apps/<x>/, modules/<x>/, scripts/<x>/); multisets of "
     "lines for <= 4 packages: pins in several spellings of a version (1.0 / 1.0.0 / 01.0), versions crossing a power of ten, unpinned, "
@@ -167,8 +167,14 @@ def run_case(case):
                 raise PackageNotFoundError(pkg)
             return v
 
+        fail_mode = {"on": False}
+
         async def fake_process(hass, domain, reqs):
             calls.append(list(reqs))
+            if fail_mode["on"] and any(r.startswith("failpkg") for r in reqs):
+                from homeassistant.requirements import RequirementsNotFound
+
+                raise RequirementsNotFound(domain, [r for r in reqs if r.startswith("failpkg")])
             for r in reqs:
                 if "==" in r:
                     p, v = r.split("==")
@@ -314,10 +320,24 @@ def run_case(case):
                         viol.append({"mech": "record_lost_on_reload", "msg": f"pyscript.reload: record of installed packages {rec2} -> {rec3}"})
                     elif run3:
                         viol.append({"mech": "second_run_installs_again", "msg": f"pyscript.reload with nothing changed asked for {run3}; record {rec2}"})
+            # ---- an installation that fails must not be recorded as done
+            if case["allow_all"] and not viol and rng.random() < 0.5:
+                fail_mode["on"] = True
+                write({LOCS[0]: ["failpkg==1.0"]})
+                calls.clear()
+                try:
+                    await R.install_requirements(w.hass, w.entry, folder)
+                except Exception as exc:  # noqa: BLE001
+                    if type(exc).__name__ != "RequirementsNotFound":
+                        raise
+                obs["failed_install_runs"] += 1
+                rec4 = dict(w.entry.data.get(CONF_INSTALLED_PACKAGES, {}))
+                if "failpkg" in rec4:
+                    viol.append({"mech": "failed_install_recorded", "msg": f"failpkg==1.0 could not be installed but the record says {rec4}"})
         shutil.rmtree(os.path.join(folder, "apps"), ignore_errors=True)
 
     w, _ = run_world(main, files={}, config={"allow_all_imports": True}, keep=True)
-    errs = [r for r in w.logs(level="ERROR") if "Ignoring invalid requirement" not in r["msg"] and "allow_all_imports" not in r["msg"] and "wasn't able to be installed" not in r["msg"]]
+    errs = [r for r in w.logs(level="ERROR") if "Ignoring invalid requirement" not in r["msg"] and "allow_all_imports" not in r["msg"] and "wasn't able to be installed" not in r["msg"] and "failpkg" not in r["msg"]]
     if errs:
         viol.append({"mech": "unexpected_error_log", "msg": str(errs[:2])[:900]})
     seen, uniq = set(), []
